@@ -173,8 +173,13 @@ class TopLevelVisitor(ast.NodeVisitor):
             ast.Module:
         """
         self.sourcelines = self.source.splitlines()
-        source_utf8  = self.source.encode('utf8')
-        pt = ast.parse(source_utf8)
+        source = self.source
+        if source.startswith('\ufeff'):
+            # a decoded byte-order mark is not part of the program text
+            source = source[1:]
+        # Parse the decoded text itself: re-encoding it as UTF-8 would make
+        # the parser apply a PEP 263 coding cookie to the wrong bytes.
+        pt = ast.parse(source)
         return pt
 
     def process_finished(self, node):
